@@ -16,12 +16,13 @@ import (
 // mpFam evaluates the real types.MerklePath / types.AddToMerkle on every string over a 3-letter alphabet
 // (mapped to several concrete byte strings) up to a length bound. One scenario per alphabet mapping.
 type mpFam struct {
-	c     *chain.Chain
-	base  sdk.Context
-	maps  [][3]string
-	L     int
-	queue []M
-	cur   int
+	c      *chain.Chain
+	base   sdk.Context
+	maps   [][3]string
+	L      int
+	queue  []M
+	cur    int
+	shaped []string // segment names picked by the shape of their hex digest
 }
 
 func init() { families["mp"] = func() Family { return &mpFam{} } }
@@ -37,6 +38,25 @@ func (f *mpFam) Setup(cfg M, rng *rand.Rand) {
 		{"\x00", "\xff\xfe", "/"},
 	}
 	f.cur = -1
+	// names whose sha256 hex digest starts with "00", "0", "f", "a0", ends with "0", starts with a decimal digit other than 0
+	want := []func(h string) bool{
+		func(h string) bool { return strings.HasPrefix(h, "00") },
+		func(h string) bool { return strings.HasPrefix(h, "0") && !strings.HasPrefix(h, "00") },
+		func(h string) bool { return strings.HasPrefix(h, "f") },
+		func(h string) bool { return strings.HasPrefix(h, "a0") },
+		func(h string) bool { return strings.HasSuffix(h, "0") },
+		func(h string) bool { return h[0] >= '1' && h[0] <= '9' },
+	}
+	f.shaped = make([]string, len(want))
+	for i, ok := range want {
+		for n := 0; ; n++ {
+			name := fmt.Sprintf("seg%d", n)
+			if ok(hx(name)) {
+				f.shaped[i] = name
+				break
+			}
+		}
+	}
 	f.c = chain.New()
 	f.c.Acct("o")
 	f.base = f.c.Ctx
@@ -110,6 +130,11 @@ func (f *mpFam) Reset() M {
 			f.queue = append(f.queue, M{"a": "postpath", "segs": []string{x, y}, "map": m})
 		}
 	}
+	// segment names chosen by the shape of their digest (the handler receives the child as a hex digest): leading zero digits,
+	// leading / trailing 'a'..'f', all-decimal prefixes; "raw" = used as they are, not through the alphabet mapping
+	for _, pair := range [][]string{{f.shaped[0], f.shaped[1]}, {f.shaped[2], f.shaped[0]}, {f.shaped[3], f.shaped[4]}, {f.shaped[1], f.shaped[5]}} {
+		f.queue = append(f.queue, M{"a": "postpath", "segs": pair, "map": m, "raw": true})
+	}
 	return M{}
 }
 
@@ -122,6 +147,9 @@ func (f *mpFam) Apply(st M) M {
 		var want []interface{}
 		for _, sg := range st["segs"].([]string) {
 			r := strings.NewReplacer("a", m[0], "b", m[1]).Replace(sg)
+			if raw, _ := st["raw"].(bool); raw {
+				r = sg
+			}
 			real = append(real, r)
 			plain += "/" + r
 			want = append(want, fttypes.MerklePath(plain))
